@@ -18,6 +18,7 @@ theorem sk_client_multiplexer_RpcMultiplexer_registerHandler : Generated.sk_clie
 theorem sk_client_multiplexer_RpcMultiplexer_unregisterHandler : Generated.sk_client_multiplexer_RpcMultiplexer_unregisterHandler = Expected.sk_client_multiplexer_RpcMultiplexer_unregisterHandler := by decide
 theorem sk_client_multiplexer_muxHandler_recv : Generated.sk_client_multiplexer_muxHandler_recv = Expected.sk_client_multiplexer_muxHandler_recv := by decide
 theorem sk_server_handler_processStreamingRpc : Generated.sk_server_handler_processStreamingRpc = Expected.sk_server_handler_processStreamingRpc := by decide
+theorem sk_server_handler_processUnaryRpc : Generated.sk_server_handler_processUnaryRpc = Expected.sk_server_handler_processUnaryRpc := by decide
 
 theorem mux_chan_cap : "multiplexer.go:ch=1" ∈ Generated.chanCaps := by decide
 def ids_injective_at_source := Mux.ids_injective (muxCfg Generated.cfg false) (by decide)
